@@ -187,6 +187,9 @@ def check_cuts(rep, tier, rng, drv, run, tmp):
             if code == -1:
                 rep.violation(f"open ({modes[mi]}) failed on a prefix without a non-OK code / terminated message",
                               {"op": "cut", "spec": spec, "cut": cut, "mode": mi, "file_hex": prefix.hex()})
+            if code == -2:
+                rep.violation(f"open ({modes[mi]}) of a prefix gives a different verdict without an error record (error == NULL) than with one",
+                              {"op": "cut", "spec": spec, "cut": cut, "mode": mi, "file_hex": prefix.hex()})
             if code == 0 and cut < n:
                 if valid is None:
                     valid = pq.validate(prefix, pages=False)
